@@ -57,7 +57,8 @@ def programs(draw):
             else:
                 delta = draw(st.integers(1, 40))
             fill.append([t, pos, mode, delta, draw(st.integers(0, 1))])
-    return {"trace": tr, "fill": fill, "short": draw(st.sampled_from([None, None, None, "half", "one"]))}
+    return {"trace": tr, "fill": fill, "short": draw(st.sampled_from([None, None, None, "half", "one"])),
+            "tmpdir": draw(st.integers(0, 3)) == 0}
 
 
 def to_script(case):
@@ -164,7 +165,7 @@ def run(case, ctx):
     d = ctx.newdir()
     try:
         env = rt.shim_env(ctx.shared["shim"], short=case["short"]) if case.get("short") else None
-        rr = rt.run_script(ctx.shared["rtdrv"], lines, d, env=env)
+        rr = rt.run_script(ctx.shared["rtdrv"], lines, d, env=env, tmpdir_mode=case.get("tmpdir", False))
         if rr.res.kind != "ok":
             raise Violation("driver did not finish: %s" % rr.res.brief())
         refused = [(who, ln) for who, lg in rr.logs.items() for ln, v in lg.items() if v[0] == "refused"]
@@ -194,7 +195,8 @@ def run(case, ctx):
         r = tools.emu(ctx.b("asan"), rr.tracedir, ("-l",))
         if not r.ok:
             raise Violation("ovniemu -l rejects the trace of a conformant program: %s" % r.brief())
-        return {"nt": flushed, "cls": ["threads:%d" % len(tr["streams"]), "auto-flush" if flushed else "no-auto-flush"],
+        return {"nt": flushed, "cls": ["threads:%d" % len(tr["streams"]), "auto-flush" if flushed else "no-auto-flush",
+                                       "tmpdir" if case.get("tmpdir") else "direct"],
                 "sample": {"script_head": lines[:25], "nlines": len(lines)}}
     finally:
         ctx.rmdir(d)
